@@ -23,7 +23,7 @@
 //!
 //! ops (first line = header, `header_lines` = 1):
 //!   symmap <DEBUGID>                                   then `cand <ref> <symview> truth=<DEBUGID from the spec|-> mark=<marker|->`*
-//!   symidx <DEBUGID>                                   then `cand <symref> own=<ID> side=<ok:ID|open|parse> idx=<ref> mark=<marker> stale=<0|1>`*
+//!   symidx <DEBUGID>                                   then `cand <symref> own=<ID> side=<ok:ID|open|parse> idx=<ref> mark=<marker> stale=<0|1> symhead=<hex> sideinfo=<hex|->`*
 //!   dyld <sym|bin> <disamb>                            then `cache <ref> <symview|binview>`*
 //!   binary name=<0|1> id=<DEBUGID|none> code=<codeid|none> arch=<arch|none>   then `cand <ref> <binview>`*
 //!   fat <disamb>                                       then `member <ref> <arch|-> <UUID|-> <symres> <binres>`*
@@ -1592,26 +1592,23 @@ mod families {
 
     // ----- Breakpad .sym candidates with a .symindex sidecar --------------------------------------
 
-    pub const STALE_SYMINDEX_FINDING: &str = "C06-symindex-unchecked";
-
-    /// The sidecar of another build is served unchecked by the present code (a candidate finding, see
-    /// notes/C06.md). The family that shows it is generated only once the finding is recorded in
-    /// KNOWN_FINDINGS.txt (or `C06_STALE_SYMINDEX=1`), so that the check is green before and after the lead's
-    /// decision; the judge condemns it unconditionally.
-    pub fn stale_symindex_enabled() -> bool {
-        if let Ok(v) = std::env::var("C06_STALE_SYMINDEX") {
-            return v == "1";
-        }
-        let root = std::env::var("VERIF_ROOT").unwrap_or_else(|_| concat!(env!("CARGO_MANIFEST_DIR"), "/..").to_string());
-        std::fs::read_to_string(format!("{root}/KNOWN_FINDINGS.txt")).map(|t| t.contains(STALE_SYMINDEX_FINDING)).unwrap_or(false)
-    }
-
+    /// `symhead=` = the first line of the `.sym` (with its line feed), `sideinfo=` = the module info stored in a
+    /// parsable sidecar (`BreakpadIndex::module_info_bytes`): the two byte strings `make_index_storage` compares
     fn symidx_cand(symref: &str, idxref: &str) -> String {
         let own = truth_ids(symref).map(|t| t.0).unwrap_or_else(|| "-".into());
         let side = side_view(idxref);
         let stale = side.strip_prefix("ok:").map(|d| d != own).unwrap_or(false);
+        let symhead = materialize(symref)
+            .map(|d| {
+                let n = d.iter().position(|b| *b == b'\n').map(|p| p + 1).unwrap_or(d.len());
+                hex(&d[..n])
+            })
+            .unwrap_or_default();
+        let sideinfo = materialize(idxref)
+            .and_then(|d| samply_symbols::BreakpadIndex::parse_symindex_file(&d[..]).ok().map(|i| hex(i.module_info_bytes)))
+            .unwrap_or_else(|| "-".into());
         format!(
-            "cand {symref} own={own} side={side} idx={idxref} mark={} stale={}",
+            "cand {symref} own={own} side={side} idx={idxref} mark={} stale={} symhead={symhead} sideinfo={sideinfo}",
             spec_marker(symref).unwrap_or_else(|| "-".into()),
             stale as u8
         )
@@ -1643,10 +1640,10 @@ mod families {
         ];
         let stale: Vec<(String, String)> = vec![(sx.clone(), idx(&sy)), (sy.clone(), idx(&sx)), (sx.clone(), idx(&sz)), (sz.clone(), idx(&sx))];
         let mut pool = consistent;
+        // an index built from another `.sym` *of the same build* (same MODULE line, other tables): still used
+        pool.insert(6, (sx.clone(), idx(&format!("sym:id={x};m=bp_q_sym"))));
         let n_consistent = pool.len();
-        if stale_symindex_enabled() {
-            pool.extend(stale);
-        }
+        pool.extend(stale);
         let lines: Vec<String> = pool.iter().map(|(s, ix)| symidx_cand(s, ix)).collect();
         for (rt, req) in [("x", &x), ("y", &y), ("z", &z)] {
             let hd = format!("symidx {req}");
